@@ -781,6 +781,29 @@ def at_cases():
             "sod(result) == sod(self)",
             "implies(valid_cal(gy, gm, gd) and date_abs(self) <= cal_abs(gy, gm, gd)"
             " and cal_abs(gy, gm, gd) < date_abs(result), gd != day_of_month)"]))
+        # a time of day AND a day of the month (combined designators, e.g. ---15T06): the hour
+        # is matched first (< 1 day), then the day - the first day from there on with that
+        # day-of-month; no date in between has it, so no earlier date-time >= p matches
+        out.append(at_case("%s-hms:dom+hh" % d, d, "hms", ["hour_of_day", "day_of_month"],
+                           [R_H, "1 <= day_of_month and day_of_month <= MAXDIM - 3 + (MAXDIM == 30) * 3"],
+                           _AT_COMMON + [
+            "is_cal(result) and result._day_of_month == day_of_month",
+            "result._hour_of_day == hour_of_day and result._minute_of_hour == 0"
+            " and result._second_of_minute == 0",
+            # every date from the one the hour match falls on up to the result lacks the day
+            "implies(valid_cal(gy, gm, gd) and cal_abs(gy, gm, gd) < date_abs(result) and"
+            " 86400 * cal_abs(gy, gm, gd) + 3600 * hour_of_day >= 86400 * date_abs(self) + isod(self),"
+            " gd != day_of_month)"]))
+        # a time of day AND a weekday (e.g. -W-1T-30 is minute + weekday; here hour + weekday)
+        out.append(at_case("%s-hms:dow+hh" % d, d, "hms", ["hour_of_day", "day_of_week"],
+                           [R_H, "1 <= day_of_week and day_of_week <= 7"], _AT_COMMON + [
+            "is_week(result) and result._day_of_week == day_of_week",
+            "result._hour_of_day == hour_of_day and result._minute_of_hour == 0"
+            " and result._second_of_minute == 0",
+            "local_instant(result) - local_instant(self) < 8 * 86400",
+            "implies(valid_cal(gy, gm, gd) and cal_abs(gy, gm, gd) < date_abs(result) and"
+            " 86400 * cal_abs(gy, gm, gd) + 3600 * hour_of_day >= 86400 * date_abs(self) + isod(self),"
+            " wd(cal_abs(gy, gm, gd)) != day_of_week)"]))
         # week plus weekday (weeks every year has: 1 .. SUM // 7)
         out.append(at_case("%s-hms:ww-dow" % d, d, "hms", ["week_of_year", "day_of_week"],
                            ["1 <= day_of_week and day_of_week <= 7",
